@@ -62,6 +62,8 @@ type Sim struct {
 	NoLog   bool
 	Counter map[string]int // fault/probe counters
 	names   map[string]int
+	// tearing: teardown wakes every parked task at once; what they do then runs in real parallel and is not part of the run
+	tearing atomic.Bool
 }
 
 // New returns a scheduler bound to a tape.
@@ -102,7 +104,7 @@ func (s *Sim) Count(name string) {
 // Logf appends an event under a key (object or task id); events of one step
 // are canonically ordered by (key, per-key sequence).
 func (s *Sim) Logf(key string, format string, args ...any) {
-	if s.NoLog {
+	if s.NoLog || s.tearing.Load() {
 		return
 	}
 	txt := fmt.Sprintf(format, args...)
@@ -319,6 +321,7 @@ func (s *Sim) Drain(budget int) bool {
 // closed its listeners and connections. Returns the names of tasks that were
 // still parked when teardown began.
 func (s *Sim) Teardown() []string {
+	s.tearing.Store(true)
 	s.mu.Lock()
 	s.abort = true
 	s.mu.Unlock()
